@@ -24,7 +24,7 @@ ID = "C07"
 LEVEL = "exploration"
 TECHNIQUE = "exhaustive channel/level/kind table instantiated with generated models and values (Hypothesis) vs Euler reference with the scenario's effective settings"
 RULE = ("cases = (override kind in {constants, points, runspecs, mixed}, level in {base, scenario, both}, channel in {dict, file, "
-        "two files, session settings, REST /run settings}, flavour in {DSL, XMILE}) x generated stock/flow model x two scenarios with "
+        "two files, session settings, REST /run settings, registered + later partial settings, second session, several scenarios per REST request}, flavour in {DSL, XMILE}; files re-read by reset_scenario / reset_all_scenarios / a second bptk; DSL models whose elements read the run specs) x generated stock/flow model x two scenarios with "
         "generated override values (numbers, point lists, points as string); each scenario's run must equal the reference with its "
         "effective settings (base values unless overridden) on its own grid. non-trivial = the override changes at least one "
         "reported value or grid point w.r.t. the un-overridden model; distinct by case")
